@@ -144,3 +144,14 @@ def shard(mon, tier, rng, shard_no, nshards):
                         "first_request_index": reqs[0]["evaluation_index"] if reqs else None})
         for _ in range(6):
             direct_optimisers(mon, rng)
+
+
+def replay(mon, rec):
+    def chk(mon, tr):
+        for st in tr.steps:
+            if st["crash"] is None:
+                runchecks.check_acquisition(mon, tr, st)
+    if "variant" not in rec["case"]:
+        print("direct optimiser case:", rec["case"])
+        return
+    runs.replay_runs(mon, rec, chk)
